@@ -11,80 +11,91 @@ Section Sat.
   Variable ok : list A -> A -> bool.
   Hypothesis ok_mono : forall S S' c, incl S S' -> ok S c = true -> ok S' c = true.
 
-  (* one round adds every candidate that is currently admissible *)
-  Definition sat_step (S : list A) : list A + list A :=
-    match filter (fun c => negb (mem c S) &&& ok S c) cands with
-    | [] => inr S
-    | new => inl (new ++ S)
+  (* one round adds every pending candidate that is currently admissible; state = (set so far, pending candidates) *)
+  Definition sat_step (st : list A * list A) : (list A * list A) + list A :=
+    match partition (ok (fst st)) (snd st) with
+    | ([], _) => inr (fst st)
+    | (new, rest) => inl (new ++ fst st, rest)
     end.
 
   Definition saturate_fuel (n : nat) : option (list A) :=
-    match loop sat_step n [] with inr r => Some r | inl _ => None end.
+    match loop sat_step n ([], cands) with inr r => Some r | inl _ => None end.
 
   (* invariant: everything in S was added legitimately *)
   Inductive Gen : A -> Prop :=
   | gen_intro S c : (forall x, In x S -> Gen x) -> In c cands -> ok S c = true -> Gen c.
 
-  Lemma sat_step_inv S : (forall x, In x S -> Gen x) ->
-    match sat_step S with
-    | inl S' => forall x, In x S' -> Gen x
+  Definition sat_inv (st : list A * list A) : Prop :=
+    (forall x, In x (fst st) -> Gen x) /\ (forall c, In c cands -> In c (fst st) \/ In c (snd st)) /\ incl (snd st) cands.
+
+  Lemma partition_In (f : A -> bool) l x : In x l <-> In x (fst (partition f l)) \/ In x (snd (partition f l)).
+  Proof.
+    induction l as [|y r IH]; cbn [partition]; [cbn; tauto|]. destruct (partition f r) as [g d]. cbn [fst snd] in *.
+    destruct (f y); cbn [fst snd In]; rewrite IH; tauto.
+  Qed.
+  Lemma partition_fst (f : A -> bool) l x : In x (fst (partition f l)) -> In x l /\ f x = true.
+  Proof.
+    induction l as [|y r IH]; cbn [partition]; [cbn; tauto|]. destruct (partition f r) as [g d]. cbn [fst snd] in *.
+    destruct (f y) eqn:E; cbn [fst In]; [intros [<-|Hx]; [auto|]|intros Hx]; destruct (IH Hx); auto.
+  Qed.
+  Lemma partition_snd (f : A -> bool) l x : In x (snd (partition f l)) -> In x l /\ f x = false.
+  Proof.
+    induction l as [|y r IH]; cbn [partition]; [cbn; tauto|]. destruct (partition f r) as [g d]. cbn [fst snd] in *.
+    destruct (f y) eqn:E; cbn [snd In]; [intros Hx|intros [<-|Hx]; [auto|]]; destruct (IH Hx); auto.
+  Qed.
+  Lemma partition_len (f : A -> bool) l : length (fst (partition f l)) + length (snd (partition f l)) = length l.
+  Proof.
+    induction l as [|y r IH]; cbn [partition]; [reflexivity|]. destruct (partition f r) as [g d]. cbn [fst snd] in *.
+    destruct (f y); cbn [fst snd length]; lia.
+  Qed.
+
+  Lemma sat_step_inv st : sat_inv st ->
+    match sat_step st with
+    | inl st' => sat_inv st'
     | inr R => (forall x, In x R -> Gen x) /\ (forall c, In c cands -> ok R c = true -> In c R)
     end.
   Proof.
-    intros I. unfold sat_step. destruct (filter _ cands) as [|c0 new] eqn:F.
-    - split; [exact I|]. intros c Hc Ho. destruct (mem c S) eqn:M; [now apply mem_In|]. exfalso.
-      assert (X : In c (filter (fun c => negb (mem c S) &&& ok S c) cands)) by (apply filter_In; rewrite M, Ho; auto).
-      rewrite F in X. destruct X.
-    - intros x Hx. apply in_app_iff in Hx. destruct Hx as [Hx|Hx]; [|now apply I].
-      rewrite <- F in Hx. apply filter_In in Hx. destruct Hx as [Hc E]. apply land_true_iff in E. destruct E as [_ E].
-      now apply gen_intro with S.
+    destruct st as [S pend]. intros (I1 & I2 & I3). unfold sat_step. cbn [fst snd] in *.
+    pose proof (partition_fst (ok S) pend) as PF. pose proof (partition_snd (ok S) pend) as PS.
+    pose proof (partition_In (ok S) pend) as PI.
+    destruct (partition (ok S) pend) as [new rest]. cbn [fst snd] in *. destruct new as [|c0 new].
+    - split; [exact I1|]. intros c Hc Ho. destruct (I2 c Hc) as [X|X]; [exact X|].
+      apply PI in X. destruct X as [[]|X]. destruct (PS _ X). congruence.
+    - repeat split; cbn [fst snd].
+      + intros x Hx. apply in_app_iff in Hx. destruct Hx as [Hx|Hx]; [|now apply I1].
+        destruct (PF _ Hx) as [Hp Ho]. apply gen_intro with S; auto.
+      + intros c Hc. destruct (I2 c Hc) as [X|X]; [left; apply in_or_app; now right|].
+        apply PI in X. destruct X as [X|X]; [left; apply in_or_app; now left|now right].
+      + intros x Hx. apply I3. now destruct (PS _ Hx).
   Qed.
+
+  Lemma sat_inv_init : sat_inv ([], cands).
+  Proof. repeat split; cbn [fst snd]; [intros x []|intros c Hc; now right|apply incl_refl]. Qed.
 
   Lemma saturate_fuel_spec n R : saturate_fuel n = Some R ->
     (forall x, In x R -> Gen x) /\ (forall c, In c cands -> ok R c = true -> In c R).
   Proof.
     unfold saturate_fuel. intros E.
-    pose proof (loop_inv _ _ sat_step (fun S => forall x, In x S -> Gen x)
+    pose proof (loop_inv _ _ sat_step sat_inv
                   (fun R => (forall x, In x R -> Gen x) /\ (forall c, In c cands -> ok R c = true -> In c R))
-                  sat_step_inv n [] (fun x (F : In x []) => match F with end)) as L.
-    destruct (loop sat_step n []) as [|r]; [discriminate|]. inversion E; subst. exact L.
+                  sat_step_inv n _ sat_inv_init) as L.
+    destruct (loop sat_step n ([], cands)) as [|r]; [discriminate|]. inversion E; subst. exact L.
   Qed.
 
-  Lemma unseen_app_le (l S : list A) : unseen cands (l ++ S) <= unseen cands S.
+  Lemma sat_step_progress st : True ->
+    match sat_step st with inl st' => True /\ length (snd st') < length (snd st) | inr _ => True end.
   Proof.
-    induction l as [|x l IH]; cbn [app]; [lia|]. pose proof (unseen_add_le cands (l ++ S) x). lia.
-  Qed.
-  Lemma unseen_app_lt (l S : list A) c : In c l -> In c cands -> mem c S = false ->
-    unseen cands (l ++ S) < unseen cands S.
-  Proof.
-    induction l as [|x l IH]; intros Hl Hc M; [destruct Hl|]. cbn [app].
-    destruct (mem c l) eqn:Ml.
-    - apply mem_In in Ml. pose proof (IH Ml Hc M). pose proof (unseen_add_le cands (l ++ S) x). lia.
-    - destruct Hl as [->|Hl]; [|apply mem_In in Hl; congruence].
-      assert (M2 : mem c (l ++ S) = false).
-      { apply mem_nIn. intros X. apply in_app_iff in X. destruct X as [X|X]; apply mem_In in X; congruence. }
-      pose proof (unseen_add_lt cands (l ++ S) c Hc M2). pose proof (unseen_app_le l S). lia.
-  Qed.
-
-  Lemma sat_step_progress S : incl S cands ->
-    match sat_step S with inl S' => incl S' cands /\ unseen cands S' < unseen cands S | inr _ => True end.
-  Proof.
-    intros I. unfold sat_step. destruct (filter _ cands) as [|c0 new] eqn:F; [exact Logic.I|].
-    assert (X : In c0 (filter (fun c => negb (mem c S) &&& ok S c) cands)) by (rewrite F; now left).
-    apply filter_In in X. destruct X as [Hc E]. apply land_true_iff in E. destruct E as [E _]. apply negb_true_iff in E.
-    split.
-    - intros x Hx. apply in_app_iff in Hx. destruct Hx as [Hx|Hx]; [|now apply I].
-      rewrite <- F in Hx. apply filter_In in Hx. tauto.
-    - apply unseen_app_lt with c0; [now left|exact Hc|exact E].
+    intros _. destruct st as [S pend]. unfold sat_step. cbn [fst snd].
+    pose proof (partition_len (ok S) pend) as PL. destruct (partition (ok S) pend) as [new rest]. cbn [fst snd] in *.
+    destruct new as [|c0 new]; [exact I|]. split; [exact I|]. cbn [snd length] in *. lia.
   Qed.
 
   Lemma saturate_terminates : exists R, saturate_fuel (length cands + 1) = Some R.
   Proof.
     unfold saturate_fuel.
-    destruct (loop_terminates _ _ sat_step (unseen cands) (fun S => incl S cands) sat_step_progress
-                (length cands + 1) []) as [r Hr].
-    - intros x [].
-    - pose proof (unseen_le cands []). assert (length cands < 2 ^ length cands) by (clear; induction (length cands); cbn [Nat.pow]; lia).
+    destruct (loop_terminates _ _ sat_step (fun st => length (snd st)) (fun _ => True) sat_step_progress
+                (length cands + 1) ([], cands) I) as [r Hr].
+    - cbn [snd]. assert (length cands < 2 ^ length cands) by (clear; induction (length cands); cbn [Nat.pow]; lia).
       replace (length cands + 1) with (S (length cands)) by lia. cbn [Nat.pow]. lia.
     - exists r. now rewrite Hr.
   Qed.
